@@ -62,3 +62,67 @@ Example file1_agree :
   forall es, reader file1 = ROk es ->
   forall e, In e es -> pick file1 (e_out e) (e_zone e) (e_key e) (e_iso e) = ROk (e_ds e).
 Proof. intros es. apply reader_picker_agree, file1_wf. Qed.
+
+(* ---- text level: a document with the generator's layouts (two time steps
+   printed downwards, groups printed downwards, a NOT YET CONVERGED step, a
+   spectrum without time steps, a generic response, a keff block) ---- *)
+From VV Require Import C11.Pystr C10.Text C10.TextProofs.
+
+Definition tx_row (a b s g l : string) : drow := mk_drow (lit a) (lit b) (lit s) (lit g) (lit l).
+Definition tx_rows1 := [tx_row "20" "15" "1" "10" "7"; tx_row "15" "10" "2" "20" "7"; tx_row "10" "0" "3" "30" "7"].
+Definition tx_rows2 := [tx_row "20" "15" "4" "40" "7"; tx_row "15" "10" "5" "50" "7"; tx_row "10" "0" "6" "60" "7"].
+Definition tx_s1 := mk_dstep (Some (lit "0", lit "4", lit "100")) (lit "12") tx_rows1
+                             (Some (mk_dinteg (lit "12") (Some (lit "50", lit "7", lit "70")))).
+Definition tx_s2 := mk_dstep (Some (lit "1", lit "0", lit "4")) (lit "12") tx_rows2 (Some (mk_dinteg (lit "12") None)).
+Definition tx_s3 := mk_dstep None (lit "12") [tx_row "1" "2" "-0.5e+01" "0.25" "7"; tx_row "2" "9" "0" "0" "7"]
+                             (Some (mk_dinteg (lit "12") (Some (lit "50", lit "3", lit "1")))).
+Definition tx_z1 := mk_dzone (lit "SCORE_TRACK") (lit "3") [tx_s1; tx_s2].
+Definition tx_z2 := mk_dzone (lit "SCORE_COLL") (lit "8") [tx_s3].
+Definition tx_keff := mk_dkeff (lit "50") ((lit "1.0", lit "0.1"), (lit "1.1", lit "0.2"), (lit "0.9", lit "0.3"))
+                               ((lit "0.5", lit "1.0", lit "0.1"), (lit "-0.5", lit "1.0", lit "0.1"),
+                                (lit "0.1", lit "1.0", lit "0.1")) (lit "1.0", lit "0.05").
+Definition tx_doc := mk_doc (lit "200")
+  [mk_dresp [lit "FLUX"] [ARespName [lit "resp_0"]; ADecoupage [lit "DEC_0"]] (BZones [tx_z1; tx_z2]);
+   mk_dresp [lit "TOTAL"; lit "FISSION"; lit "RATE"] [] (BGeneric (lit "50") (lit "1.5e-03") (lit "2.0"));
+   mk_dresp [lit "KEFFS"] [] (BKeff tx_keff)] (lit "217").
+
+Example tx_doc_wf : wf_doc tx_doc.
+Proof. vm_compute. reflexivity. Qed.
+
+(* the parser reads the printed text back, by evaluation (not through the theorem) *)
+Example tx_doc_round_trip : parse_block (print_block tx_doc) = Some tx_doc.
+Proof. vm_compute. reflexivity. Qed.
+
+(* numerals read as integers where they are integers: the hypothesis
+   [zone_ordered] of the text-to-dataset theorem holds for the zone printed by
+   time steps and for the zone without time steps *)
+Definition tx_num (s : str) : Z := match py_int s with Some z => z | None => 0 end.
+
+Example tx_zones : map snd (zones_of tx_doc) = [tx_z1; tx_z2].
+Proof. reflexivity. Qed.
+
+Example tx_z1_ordered : zone_ordered tx_num Z.ltb tx_z1.
+Proof.
+  unfold zone_ordered. cbn [msteps tx_z1 z_steps map with_time tx_s1 s_time]. split.
+  - split; [vm_compute; discriminate|]. split.
+    + intros s [<-|[<-|[]]]; repeat split; vm_compute; reflexivity.
+    + right. intros c Hc. vm_compute in Hc. destruct Hc as [<-|[<-|[<-|[]]]]; reflexivity.
+  - right. split; [vm_compute; auto|]. split; [cbn; lia|].
+    intros s [<-|[<-|[]]]; reflexivity.
+Qed.
+
+Example tx_z2_ordered : zone_ordered tx_num Z.ltb tx_z2.
+Proof.
+  unfold zone_ordered. cbn [msteps tx_z2 z_steps map with_time tx_s3 s_time]. split; [|reflexivity].
+  split; [vm_compute; discriminate|]. split.
+  - intros s [<-|[]]; repeat split; vm_compute; reflexivity.
+  - left. intros c Hc. vm_compute in Hc. destruct Hc as [<-|[<-|[]]]; reflexivity.
+Qed.
+
+(* the plane computed from the text of the first zone *)
+Example tx_z1_plane :
+  text_plane tx_num Z.ltb tx_z1
+  = mk_plane [0; 10; 15; 20] [0; 4; 100]
+             [[(6, 60); (5, 50); (4, 40)]; [(3, 30); (2, 20); (1, 10)]]
+             [None; Some (7, 70)] [0; 20].
+Proof. vm_compute. reflexivity. Qed.
